@@ -24,6 +24,24 @@ def main():
                                   escaped='%s: %s' % (type(e).__name__,
                                                       str(e)[:200]))))
             return
+    # an engine with a suffix operator (the generated p_unary production
+    # sees an operand NODE where a prefix production sees a symbol)
+    from yaql.language import factory as F
+    f = yaql.YaqlFactory()
+    f.insert_operator(None, True, '!', F.OperatorType.SUFFIX_UNARY, True)
+    suffix_engine = f.create()
+    for t in ('5 !', "'a'!", 'null!', 'abc!', '$!', '(5)!', 'f(1)!',
+              '[1, 2]!', '-5!', 'true !', '$.a!', '1.5!'):
+        try:
+            suffix_engine(t)
+        except exceptions.YaqlParsingException:
+            pass
+        except Exception as e:      # noqa
+            print(json.dumps(dict(status='failed', text=t,
+                                  engine='suffix operator "!" inserted',
+                                  escaped='%s: %s' % (type(e).__name__,
+                                                      str(e)[:200]))))
+            return
     # backtracking probe: time must not explode with the input length
     for q in ('"', "'", '`'):
         prev = None
